@@ -146,3 +146,52 @@ register(Job("C06", "retry_backoff_does_not_block", _engine_harness(lambda: _C.r
                       ["durations", "per-attempt outcomes", "task-set order"],
                       {"oracle": "time.sleep is replaced by a recording stub during the run: any call from engine code on the "
                                  "loop thread (which would stall every sibling for the whole back-off) is a violation"})))
+
+
+def _retry_yield_verdict(obs: Any, ref: Any, sym: Any) -> Any:
+    """R and B have the same dependencies.  If R needs more than one attempt, B must have been started before R's last
+    attempt ended (a retry loop that never yields would run R to completion first)."""
+    from .. import verdicts as V
+
+    if V.hang(obs):
+        return V.hang(obs)
+    first_start = {}
+    last_end = {}
+    n_body = {}
+    for seq, kind, node, payload in obs.rc.log:
+        if kind == "start" and node not in first_start:
+            first_start[node] = seq
+        if kind == "end":
+            last_end[node] = seq
+        if kind == "body":
+            n_body[node] = n_body.get(node, 0) + 1
+    if n_body.get("R", 0) >= 2 and "B" in first_start and first_start["B"] > last_end.get("R", 0):
+        return "sibling_started_only_after_retrying_node_finished"
+    if n_body.get("R", 0) >= 2 and "B" not in first_start:
+        return "sibling_never_started"
+    return V.blocking(obs)
+
+
+def _retry_no_delay() -> Any:
+    from ..spec import E1, OK, In, Node, Spec
+    return Spec("retry_no_delay", [
+        Node("A"),
+        Node("R", (("a", In("A")),), kinds=(OK, E1), kind_slots=3, attempts=3, delay=None),
+        Node("B", (("a", In("A")),)),
+        Node("O", (("r", In("R")), ("b", In("B")))),
+    ], "A", "O", dur_nodes=())
+
+
+for mode in ("async", "inline"):
+    def _f(mode: str = mode) -> Any:
+        sp = _retry_no_delay()
+        sp.by_name["R"].mode = mode
+        return sp
+
+    register(Job("C06", "retry_yields_between_attempts_" + mode,
+                 _engine_harness(_f, _retry_yield_verdict, rev=False, param_orders=True),
+                 tier="quick", budget_s=200,
+                 parts=[dict(p, reversed_param_order=o) for p in _auto_parts(_f(), rev=False) for o in (0, 1)],
+                 doc=_doc("retry_no_delay: R (attempts 3, no delay, %s) and B have the same dependency; R is declared first" % mode,
+                          ["per-attempt outcomes of R", "caller input", "declared / reversed parameter order (launch order of R and B)"],
+                          {"bounds": "durations 0: R's attempts fail before their first suspension point"})))
